@@ -242,7 +242,11 @@ func (c *Checker) checkC07(msg sdk.Msg, ok bool) {
 			}
 		}
 		if mf.Cmp(floorRat(bf)) < 0 && (o.MaxFeeAmount == nil || o.MaxFeeAmount.Denom == d) {
-			c.report("C07", "max-fee<buyer-fee", fmt.Sprintf("orders[%d]: max fee %s < floor(buyer fee %s)", i, mf, ratStr(bf)), nil)
+			k := "max-fee<buyer-fee"
+			if sigDigits(bf) > 34 || sigDigits(subt) > 34 {
+				k += ":beyond-34-digits"
+			}
+			c.report("C07", k, fmt.Sprintf("orders[%d]: max fee %s < floor(buyer fee %s)", i, mf, ratStr(bf)), nil)
 		}
 	}
 
